@@ -44,6 +44,7 @@ type Call struct {
 	// reference-register expectation recorded by the engine when the call was issued
 	Judged       bool
 	ExpectAccept bool
+	Pair         *Call // the concurrent duplicate of this submission (exactly one of the two may be accepted)
 }
 
 func (c *Call) String() string {
